@@ -174,6 +174,19 @@ def cases(rng, tier):
     for i in range(60):
         cs = [rnd_val(rng, 100) for _ in range(rng.choice([5, 6, 8]))]
         yield ("poly extrema %s" % hexcsv(cs), "extrema-high")
+    # three real roots a few hundredths apart (more than four tolerances): a (x - r + s)(x - r)(x - r - s), y = 0 and
+    # right-hand sides between the local extrema.  The discriminant of the depressed cubic is -s^6 / 27 whatever a is.
+    yield ("poly solve 00000000,40495c40,4315d497,c43ec6cb 00000000", "clustered-roots")       # found by the thorough tier
+    for i in range(n // 25):
+        a = f32(rng.choice([1, -1]) * rng.uniform(0.5, 1000))
+        r = rng.uniform(-0.5, 1.5)
+        sp = rng.choice([0.045, 0.05, 0.06, 0.075, 0.09, 0.1, 0.12, 0.2])
+        r1, r2, r3 = r - sp, r, r + sp * rng.uniform(1.0, 1.3)
+        cs = [f32(-a * r1 * r2 * r3), f32(a * (r1 * r2 + r1 * r3 + r2 * r3)), f32(-a * (r1 + r2 + r3)), a]
+        if not well_conditioned(cs):
+            continue
+        yield ("poly solve %s %s" % (hexcsv(cs), fhex(0.0)), "clustered-roots")
+        yield ("poly touches %s %s" % (hexcsv(cs), fhex(0.0)), "clustered-roots-touches")
     # straight segments queried with exactly the values the library's own evaluation gives at the two ends of [0,1]
     # (slopes like 0.1, 0.7, 1.9: p(1) = fl(a + b) is not a + b, and (fl(a + b) - b) / a need not be <= 1 in binary32)
     for i in range(n // 4):
@@ -195,7 +208,9 @@ def _close(m, i, tol):
 
 
 def root_tol(deg, r):
-    base = {0: Fraction(1, 100000), 1: Fraction(1, 100000), 2: Fraction(2, 10000), 3: Fraction(3, 1000)}[min(deg, 3)]
+    # (cubic: 1 % of the unit interval, the accuracy class of the closed form in binary32 - the thorough tier's 3e5
+    # cases showed errors up to 4.1e-3 on the unchanged tree, a first calibration on 3e3 cases had settled on 3e-3)
+    base = {0: Fraction(1, 100000), 1: Fraction(1, 100000), 2: Fraction(2, 10000), 3: Fraction(1, 100)}[min(deg, 3)]
     return base * max(1, abs(r))
 
 
@@ -381,9 +396,29 @@ def compare(case, om, oi):
     return "model=%s impl=%s" % (om[:100], oi[:100])
 
 
+def _cubic_delta(case):
+    """the discriminant quantity q^2/4 + p^3/27 of the depressed cubic, in exact arithmetic"""
+    w = case.split(" ")
+    cs = [frac_of_bits(int(x, 16)) for x in _vals(w[2])]
+    y = frac_of_bits(int(w[3], 16))
+    if len(cs) != 4 or y is None or any(c is None for c in cs) or cs[3] == 0:
+        return None
+    d, c, b, a = cs[0] - y, cs[1], cs[2], cs[3]
+    p = (3 * a * c - b * b) / (3 * a * a)
+    q = (2 * b ** 3 - 9 * a * b * c + 27 * a * a * d) / (27 * a ** 3)
+    return q * q / 4 + p ** 3 / 27
+
+
 def finding_key(case, om, oi, d):
     if d.startswith("extrema of a degree > 3"):
         return "D13 extrema-degree>3"
+    if (case.startswith("poly solve ") and (d.startswith("root count: impl 2, certified 3") or d.startswith("root count: impl 1, certified 3"))) \
+            or (case.startswith("poly touches ") and d.startswith("touches: impl ")):
+        # three distinct real roots reported as a double root: the closed form's test |delta| < 1e-8 is absolute
+        # (sb_poly_touches goes through the same solver)
+        dl = _cubic_delta(case)
+        if dl is not None and dl < 0 and abs(dl) < Fraction(2, 10 ** 8):
+            return "D24 cubic-discriminant-absolute-threshold"
     return d
 
 
